@@ -50,7 +50,9 @@ def scenarios(rnd, wd, k, small=False, pfx="sc"):
         tag = "%s%d" % (pfx, i)
         D = writegen.content(rnd, rnd.choice(["text", "rand", "mixed"]), rnd.choice([20000, 90000, 200000]) if not small else rnd.choice([3000, 9000]))
         src = os.path.join(wd, tag + ".in"); open(src, "wb").write(D)
-        cfg = {"comp": rnd.choice([0, 2]), "manual": False, "full": 1, "chunk": 3, "level": 1, "max": 20000 if not small else 2000}
+        # every checksum type is in use by several threads at once, as overall and as chunk checksum (SHA-1 can only be
+        # selected through the options; the bundled implementations are separate code per type)
+        cfg = {"comp": rnd.choice([0, 2]), "manual": False, "full": (0, 1, 2, 3)[i % 4], "chunk": (3, 0, 1, 2)[i % 4], "level": 1, "max": 20000 if not small else 2000}
         out_zck = os.path.join(wd, tag + ".zck")
         cA = [b""] + [corpus.text(rnd, n) for n in ((300, 33000, 200) if not small else (300, 1500, 200))]
         cB = [b""] + [cA[1], corpus.rand(rnd, 35000 if not small else 900), cA[3], corpus.rand(rnd, 700), cA[2], corpus.rand(rnd, 20000 if not small else 1200)]
